@@ -606,6 +606,7 @@ func ruleRowCache(p *Prog, r *Result) {
 		return false
 	}
 	nGroupEval := 0
+	pairFields := map[string]bool{}
 	for _, fn := range p.Funcs {
 		has := false
 		allInstrs(fn, func(in ssa.Instruction) {
@@ -695,6 +696,7 @@ func ruleRowCache(p *Prog, r *Result) {
 					for i := 0; i < st.NumFields(); i++ {
 						if p.derivesFromField(kv, "AggrPlanField", st.Field(i).Name(), traceOpts{}) {
 							fromRow = true
+							pairFields[st.Field(i).Name()] = true
 						}
 					}
 				}
@@ -703,6 +705,63 @@ func ruleRowCache(p *Prog, r *Result) {
 		})
 	}
 	r.floor("field evaluations of completed groups", nGroupEval, 1)
+	// ... and every element of a group's row carries that pair: wherever an AggrPlanField is made, the field the
+	// pair is read from is stored before the element is handed on (a pair kept only on some columns is read back as
+	// an empty pair from the others)
+	for fld := range pairFields {
+		for _, fn := range p.Funcs {
+			// the elements made for a group: made where the group's pair is at hand (the templates the plan keeps
+			// per select field are made in Init, without a pair)
+			hasPair := false
+			for _, pa := range fn.Params {
+				if typeName(pa.Type()) == "KVPair" {
+					hasPair = true
+				}
+			}
+			if !hasPair {
+				continue
+			}
+			idx := 0
+			allInstrs(fn, func(in ssa.Instruction) {
+				al, ok := in.(*ssa.Alloc)
+				if !ok || typeName(deref(al.Type())) != "AggrPlanField" || al.Referrers() == nil {
+					return
+				}
+				idx++
+				var stores []ssa.Instruction
+				var escapes []ssa.Instruction
+				for _, ref := range *al.Referrers() {
+					if fa, isFA := ref.(*ssa.FieldAddr); isFA {
+						if _, f, _, _ := fieldOfAddr(fa); f == fld && fa.Referrers() != nil {
+							for _, r2 := range *fa.Referrers() {
+								if st, isSt := r2.(*ssa.Store); isSt && st.Addr == ssa.Value(fa) {
+									stores = append(stores, st)
+								}
+							}
+						}
+						continue
+					}
+					if _, isDbg := ref.(*ssa.DebugRef); isDbg {
+						continue
+					}
+					escapes = append(escapes, ref)
+				}
+				bad := ""
+				for _, e := range escapes {
+					okE := false
+					for _, st := range stores {
+						if instrDominates(st, e) {
+							okE = true
+						}
+					}
+					if !okE {
+						bad = p.InstrPos(e)
+					}
+				}
+				r.add(bad == "", fmt.Sprintf("%s|group-pair|AggrPlanField#%d.%s", p.FName(fn), idx, fld), p.InstrPos(in), firstNonEmpty(map[bool]string{true: "the element is handed on at " + bad + " without its " + fld + " field having been set on every way there"}[bad != ""], "every element of a group's row is given the group's pair before it is handed on"))
+			})
+		}
+	}
 	// an alias reference always memoises: evaluated without a context (the library does that itself: arguments
 	// evaluated row by row inside a batch, the filter below an aggregate) a reference would recompute the field it
 	// stands for, and a chain of fields that each use the previous one twice costs 2^n evaluations. The context the
